@@ -251,7 +251,9 @@ def run_case(case, ctx):
                 if np.dtype(dt) != tab[col].dtype:
                     obs.violate("column_dtype_changed", "%s: column %s.%s has dtype %s, component declares %s" % (real, table, col, tab[col].dtype, np.dtype(dt)), **desc)
         after = fingerprint(net, include_results=True)
-        allowed = {table, "component_list", table + "_geodata", "std_types"} | {k for k in after if k.startswith(table + ".") or k.startswith(table + "_geodata")}
+        allowed = {table, "component_list", table + "_geodata"} | {k for k in after if k.startswith(table + ".") or k.startswith(table + "_geodata")}
+        if real == "create_pump_from_parameters":
+            allowed.add("std_types")      # the only create function that is documented to add a standard type
         changed = [k for k in diff(before, after) if k not in allowed]
         if changed:
             obs.violate("creation_touches_other_entries", "%s changed entries %s" % (real, changed), **desc)
